@@ -41,18 +41,27 @@ MODELS = {
                   variants=[],
                   no_exempt=[("D_C07_f", "MC_PauseA.cfg"), ("D_C07_b", "MC_PauseD.cfg"), ("D_C03_p", "MC_PauseC.cfg")],
                   live=dict(quick=["MC_Live_pauseB.cfg", "MC_Live_pauseD.cfg"], thorough=["MC_Live_pauseB.cfg", "MC_Live_pauseD.cfg", "MC_Live_pauseB_thorough.cfg"])),
+    # the snapshot writer (C12): no schedules are derived from it; controls = variants of the code before repair F5
+    "snap": dict(module="MC_Snap.tla", quick=["MC_Snap_quick.cfg"], thorough=["MC_Snap_quick.cfg", "MC_Snap_thorough.cfg"],
+                 controls=[("MC_Snap_pinned_complete.cfg", "S_Complete"), ("MC_Snap_pinned_current.cfg", "S_Current"),
+                           ("MC_Snap_nolock_window.cfg", "S_Current")],
+                 witnesses=[], variants=[], no_exempt=[], sim_cfg=None),
+    # the service table under racing commands (C05, C06, probe part of C17)
+    "own": dict(module="MC_Own.tla", quick=["MC_Own_quick.cfg"], thorough=["MC_Own_quick.cfg", "MC_Own_thorough.cfg"],
+                controls=[("MC_Own_nonatomic.cfg", "O_Ownership"), ("MC_Own_nodispose.cfg", "O_FailedLeavesNothing")],
+                witnesses=[], variants=[], no_exempt=[], sim_cfg=None),
 }
 
 CONC = {
     "C01": dict(families=["deploy", "rollout"], invs=["C01_a", "C01_b", "C01_c"], dinvs=["D_C01_a", "D_C01_b", "D_C01_c"]),
     "C02": dict(families=["deploy"], invs=["C02"], dinvs=["D_C02"]),
     "C03": dict(families=["deploy", "pause", "rollout"], invs=["C03_a", "C03_b", "C03_c"], dinvs=["D_C03_a", "D_C03_b", "D_C03_p"]),
-    "C05": dict(families=["own"], invs=["C05_a"], dinvs=[]),
-    "C06": dict(families=["own"], invs=["C06_b"], dinvs=[]),
+    "C05": dict(families=["own"], invs=["C05_a"], dinvs=["O_Ownership", "O_SomeoneWins", "A_RefusalJustified"]),
+    "C06": dict(families=["own"], invs=["C06_b"], dinvs=["O_FailedLeavesNothing", "A_FailChangesNothing", "O_NoLeak"]),
     "C07": dict(families=["pause"], invs=["C07_a", "C07_b", "C07_c", "C07_d", "C07_e", "C07_f"], dinvs=["D_C07_a", "D_C07_b", "D_C07_f"]),
     "C08": dict(families=["pause"], invs=["C08", "C08_fwd"], dinvs=["D_C08", "D_C07_a"]),
     "C09": dict(families=["health", "rollout"], invs=["C09_a", "C09_b", "C09_c", "C09_d"], dinvs=["D_C09"]),
-    "C12": dict(families=["snap"], invs=["C12_a", "C12_b"], dinvs=[]),
+    "C12": dict(families=["snap"], invs=["C12_a", "C12_b"], dinvs=["S_Complete", "S_Window", "S_Current", "S_Mutex"]),
     "C17": dict(families=["deploy", "pause", "rollout"], invs=["C17_a", "C17_b", "C17_c"], dinvs=["D_C17_c"]),
 }
 
@@ -99,6 +108,11 @@ def design_runs(family, tier, seed):
         wd2 = vlib.spec_copy(family + "livectl")
         jobs.append(dict(kind="live-control", goal=live["control"], cfg=live["control"],
                          proc=vlib.start_tlc(wd2, mdl["module"], live["control"], workers=2, timeout=200), wd=wd2))
+    for ccfg, inv in mdl.get("controls", []):
+        wd2 = vlib.spec_copy(family + "ctl" + ccfg)
+        jobs.append(dict(kind="control", goal=inv, cfg=ccfg, proc=vlib.start_tlc(wd2, mdl["module"], ccfg, workers=2, timeout=200), wd=wd2))
+    if not mdl.get("sim_cfg"):
+        return jobs
     # random behaviours of the design model
     wd3 = vlib.spec_copy(family + "sim")
     simp = os.path.join(wd3, "sim")
@@ -114,10 +128,17 @@ def collect_design(jobs, family):
     for j in jobs:
         rc, out = vlib.finish_tlc(j["proc"])
         verdict = vlib.tlc_verdict(rc, out)
-        desc = schedules.load_desc(os.path.join(vlib.SPEC, j["cfg"]))
+        if j["kind"] == "control":
+            if verdict != "violated:" + j["goal"]:
+                raise Inconclusive("control %s: the variant of the design model must violate %s, got %s" % (j["cfg"], j["goal"], verdict))
+            notes.append(("control", j["cfg"], verdict))
+            continue
+        desc = schedules.load_desc(os.path.join(vlib.SPEC, j["cfg"])) if os.path.exists(os.path.join(vlib.SPEC, j["cfg"].replace(".cfg", ".json"))) else None
         if j["kind"] == "mc":
             st, gen = vlib.tlc_stats(out)
             mc.append(dict(cfg=j["cfg"], verdict=verdict, states=st, transitions=gen))
+            if (verdict.startswith("violated") or verdict == "deadlock") and desc is None:
+                raise Inconclusive("the design model %s fails: %s\n%s" % (j["cfg"], verdict, out[-2000:]))
             if verdict.startswith("violated") or verdict == "deadlock":
                 labels = schedules.parse_labels(out)
                 plans.append(schedules.plan_from_labels(labels, desc, note="design-model counterexample %s %s" % (j["cfg"], verdict)))
@@ -204,7 +225,8 @@ def run_conc(prop, tier, seed, replay=None):
     res = vlib.validate_traces(traces)
     # design-level conformance: the internal hook events of the same runs must be a behaviour of spec/Proxy.tla
     import dtrace
-    dres = dtrace.validate([os.path.join(o, "trace.ndjson") for o in outs], limit=DTRACE_LIMIT[tier])
+    dres = dtrace.validate([os.path.join(o, "trace.ndjson") for o in outs], limit=DTRACE_LIMIT[tier],
+                           kind={"snap": "snap", "own": "own"}.get(spec["families"][0] if len(spec["families"]) == 1 else "", "proxy"))
     shutil.rmtree(dres.pop("wd"), ignore_errors=True)
     if replay:
         os.makedirs(os.path.join(vlib.VERIF, "out", prop), exist_ok=True)
